@@ -234,3 +234,41 @@ type BA4 [4]byte
 
 // BS is a named byte slice.
 type BS []byte
+
+// N1: numeric members whose values need full precision (long mantissa, beyond the float32 range, above 2^24).
+type N1 struct {
+	Nf float64
+	Ng float64
+	Nh float64
+	Nt float64
+	Ni int64
+	Nu uint16
+	Nb bool
+	Ns float32
+}
+
+// IS1: every integer kind with the `,string` option (boundary values are set by the harness).
+type IS1 struct {
+	A int8   `json:",string"`
+	B int16  `json:",string"`
+	C int32  `json:",string"`
+	D int64  `json:",string"`
+	E int    `json:",string"`
+	F uint8  `json:",string"`
+	G uint16 `json:",string"`
+	H uint32 `json:",string"`
+	I uint64 `json:",string"`
+	J uint   `json:",string"`
+}
+
+// IP1: every integer kind, plain (values stay below 2^53: JSON numbers pass through float64 in Unmarshal).
+type IP1 struct {
+	A int8
+	B int16
+	C int32
+	D int64
+	F uint8
+	G uint16
+	H uint32
+	I uint64
+}
